@@ -356,7 +356,8 @@ def run_check(prop: str, tier: str, seed: int) -> int:
             problems.append(errors[i] or ("shard %d produced nothing" % i))
             continue
         if r["status"] != "ok":
-            problems.append("shard %d %s: %s" % (i, r["status"], (r.get("error") or "")[-1500:]))
+            err = r.get("error") or ""
+            problems.append("shard %d %s: %s" % (i, r["status"], err if len(err) < 2600 else err[:900] + "\n...\n" + err[-1500:]))
         evaluations += r["evaluations"]
         sigs.update(r["sigs"])
         classes.update(r["classes"])
@@ -545,4 +546,8 @@ def main(argv=None) -> int:
 
 
 if __name__ == "__main__":
-    sys.exit(main())
+    # Run through the canonical module object: the property modules do `from pv.core import CaseTimeout`, and a class
+    # defined in `__main__` would be a different class that their `except CaseTimeout` clauses cannot catch.
+    from pv.core import main as _main
+
+    sys.exit(_main())
